@@ -85,7 +85,9 @@ def step (st : St) : List String → St × String
       | _, _ => (st, "bad-op")
   | ["jidx", id, mu] => match mutated st id mu with
       | some f =>
-        let (bs, off, bad) := JIndex.process f
+        match JIndex.process f with
+        | .error _ => (st, "panic")
+        | .ok (bs, off, bad) =>
         let s := String.join (bs.map (fun b =>
           s!"{signed64 b.start}:{signed64 b.stop}:{b.checksum}:{b.computed.toNat}:{hex b.latest}:{b.lookups.length};" ++
             String.join (b.lookups.map (fun l => s!"{hex l.addr16}:{l.offset}:{l.length},"))))
